@@ -63,6 +63,9 @@ pub struct Profile {
     /// configured Session Expiry Interval choices (0 = the broker drops the session when the
     /// network connection closes, so every reconnect meets a fresh broker session)
     pub session_expiry: Vec<u32>,
+    /// percentage of cases in which later connections plan a small Maximum Packet Size (5..20);
+    /// the broker model applies it only where everything the client may retain still fits
+    pub shrink_mps_pct: u32,
 }
 
 impl Default for Profile {
@@ -114,6 +117,7 @@ impl Default for Profile {
             final_drain: false,
             vary_rm_pct: 25,
             session_expiry: vec![3600, 3600, 3600, 3600, 1, 0, u32::MAX],
+            shrink_mps_pct: 15,
         }
     }
 }
@@ -459,8 +463,12 @@ pub fn cfg(p: &Profile) -> BoxedStrategy<Cfg> {
 }
 
 pub fn case(p: &Profile) -> BoxedStrategy<Case> {
-    (cfg(p), pct(p.auto_broker_pct), prop::collection::vec(conn_script(p), p.conns.0..=p.conns.1), pct(p.vary_rm_pct))
-        .prop_map(|(cfg, auto, mut conns, vary_rm)| {
+    let shrink = prop_oneof![
+        (100 - p.shrink_mps_pct.min(99)) => Just(Vec::new()),
+        p.shrink_mps_pct.max(1) => prop::collection::vec(prop::sample::select(vec![None, Some(5u32), Some(5), Some(6), Some(8), Some(20)]), 8),
+    ];
+    (cfg(p), pct(p.auto_broker_pct), prop::collection::vec(conn_script(p), p.conns.0..=p.conns.1), pct(p.vary_rm_pct), shrink)
+        .prop_map(|(cfg, auto, mut conns, vary_rm, shrink)| {
             // one broker: its limits do not change between the connections of a case
             if let Some(first) = conns.first().map(|c| c.connect.props.clone()) {
                 for c in conns.iter_mut().skip(1) {
@@ -469,6 +477,13 @@ pub fn case(p: &Profile) -> BoxedStrategy<Case> {
                     }
                     c.connect.props.max_packet = first.max_packet;
                     c.connect.props.max_qos = first.max_qos;
+                }
+                // planned smaller limits on later connections (applied by the broker model only if
+                // nothing the client may have to retransmit exceeds them)
+                for (i, c) in conns.iter_mut().enumerate().skip(1) {
+                    if let Some(Some(m)) = shrink.get(i % shrink.len().max(1)) {
+                        c.connect.props.max_packet = Some(*m);
+                    }
                 }
             }
             Case { cfg, broker: if auto { BrokerMode::AutoAck } else { BrokerMode::Scripted }, conns }
